@@ -111,8 +111,8 @@ def reach():
                 continue  # crowd runs belong to C09
             if k == "fault.lock.timeout":
                 continue  # fires only if the code under test uses timed locks (nitro does not; mutants/benign variants do)
-            if prop == "C09" and k == "probe.records_through_sequence_sink":
-                continue  # C09 runs use the mt sinks only
+            if prop == "C09" and k in ("probe.records_through_sequence_sink", "probe.statement_issued_by_a_sink_while_handling_a_record"):
+                continue  # C09 runs use the mt sinks only (the recording sink that logs on its own is not among them)
             if prop in ("C13",) and k in ("probe.parse_after_bad_alloc",):
                 continue
             if prop in ("C14",) and k in ("probe.resolution_probe_parses",):
